@@ -212,3 +212,32 @@ S("r4-C17-m3", "registration-first-one-wins", "plenc.go RegisterCodecWithTag use
 S("r4-C20-m1", "skip-write-when-unchanged", "plenctag skips the write-back unless a fresh index was handed out", "-w and only excluded fields left to tag")
 S("r4-C20-m2", "first-pass-drops-errors", "plenctag first pass no longer records plencValue errors", "existing plenc tag with a non-numeric index")
 S("r4-C20-m3", "splice-into-literal", "plenctag splices the plenc tag into the tag literal before its closing quote", "existing tag written as an interpreted string literal")
+
+# ---- round 5 ----
+S("r5-C03-m1", "overlay-ignores-tag-3", "struct.go wrappedCodecRegistry.Load looks held-back codecs up by type only", "added field of the same Go type as a shared field but another tag option")
+S("r5-C03-m2", "descriptor-cache-by-type-name", "struct.go StructCodec.Descriptor cached by rtype.String()", "two struct types with the same name (function-local / v1 and v2), S's descriptor requested first")
+S("r5-C03-m3", "fields-by-index-uint8", "struct.go fieldsByIndex shrunk to []uint8 holding position+1", "struct with more than 255 encoded fields")
+S("r5-C06-m1", "time-append-into-shared-tag", "time.go TimeCodec.Append builds tag and length with AppendVarUint(tag, size)", "goroutines marshalling times of different encoded length")
+S("r5-C06-m2", "registry-load-falls-back-to-untagged", "codec.go baseRegistry.Load falls back to the untagged codec on a miss", "flat/proto tagged field whose untagged codec was already built on the Plenc")
+S("r5-C06-m3", "grow-extends-length", "wrapper.go new grow helper extends the buffer's length instead of its capacity", "float slice marshalled into a buffer without enough spare capacity")
+S("r5-C08-m1", "isrepeatedform-no-unwrap", "codec.go isRepeatedForm no longer unwraps PointerWrapper", "[]*[]string with ProtoCompatibleArrays")
+S("r5-C08-m2", "overlay-ignores-tag-4", "struct.go wrappedCodecRegistry.Load matches held-back codecs by type alone", "field with an option after an untagged field of the same unregistered type")
+S("r5-C08-m3", "embedded-unexported-with-tag", "struct.go embedded fields of unexported types take part when they carry a plenc tag", "struct embedding an unexported type with a plenc tag")
+S("r5-C10-m1", "intern-unsafe-view", "string.go interning looks up and stores an unsafe string view of the input", "intern field, input buffer re-used after Unmarshal")
+S("r5-C10-m2", "slice-new-shared-header", "wrapper.go BaseSliceWrapper.New returns the address of one package-level slice header", "nil *[]T target decoded at least twice")
+S("r5-C10-m3", "struct-read-resets-proto-slices", "struct.go StructCodec.Read sets Len = 0 on every ProtoSliceWrapper field before decoding", "repeated-form slice field and a target that already holds elements")
+S("r5-C13-m1", "map-entry-absent-value-always-null", "descriptor.go readAsMapEntry renders every absent value as null", "string-keyed map with a zero value of a non-pointer type")
+S("r5-C13-m2", "mapentry-check-drops-logical-type", "descriptor.go isValidJSONMapEntry no longer checks LogicalTypeMapEntry", "two-field struct whose first field is a string")
+S("r5-C13-m3", "descriptor-skips-json-dash", "struct.go StructCodec.Descriptor leaves out fields tagged json:\"-\"", "plenc-indexed field tagged json:\"-\" with a non-zero value")
+S("r5-C16-m1", "nil-map-as-json-null", "json.go nested nil map[string]any written as JSON null", "nil map nested as a map value or array element")
+S("r5-C16-m2", "walker-count-rejects-empty", "descriptor.go readAsJSON rejects a zero-byte count (n <= 0)", "top-level nil/empty []any or map, omitted empty []any value")
+S("r5-C16-m3", "json-depth-limit", "json.go decode-side depth limit of 64", "JSON value nested more than 64 levels")
+S("r5-C18-m1", "readvaruint-fast-path", "varints.go ReadVarUint 2-byte fast path reads data[1] unchecked", "input that is exactly one continuation byte")
+S("r5-C18-m2", "readtag-two-byte-fast-path", "wire.go ReadTag 2-byte fast path ignores the second byte's continuation bit", "field index >= 2048")
+S("r5-C18-m3", "skip-length-int-arithmetic", "wire.go Skip WTLength bounds check in int arithmetic", "length prefix near 2^63")
+S("r5-C19-m1", "intern-single-byte-table", "string.go one-byte values served from a table built with string(rune(i))", "single byte 0x80..0xFF in an interned field")
+S("r5-C19-m2", "intern-rejects-other-wiretypes", "string.go InternedStringCodec.Read rejects wire types other than WTLength", "data where the field was formerly an int / foreign data")
+S("r5-C19-m3", "intern-table-plain-map-field", "string.go table published through a plain map field instead of atomic pointer", "concurrent readers and a publishing writer (race detector)")
+S("r5-C07-m1", "descriptor-recursion-flag", "struct.go StructCodec.Descriptor guarded by a describing flag on the shared codec", "overlapping Descriptor() calls on the same or a shared nested struct codec")
+S("r5-C07-m2", "intern-insert-in-place", "string.go addString inserts into the published map under the lock instead of copying", "lock-free readers concurrent with a new string")
+S("r5-C07-m3", "per-type-build-lock", "plenc.go/codec.go a mutex per struct type held while its codec is built", "mutually recursive A<->B first used from both ends at once (deadlock)")
